@@ -304,6 +304,7 @@ def contract_call(eng, c, args, kwargs, st, fr, k, node):
     post_ns = Namespace({p: eng.resolve(v, s2.heap) for p, v in bound.items()})
     post_ns.__dict__["old"] = pre_ns
     post_ns.__dict__["arg"] = post_ns
+    post_ns.__dict__["local"] = _FreshLocals(eng)
     res = eng.resolve(result, s2.heap)
     if c.ensures is not None:
         eng.S.assuming = True
@@ -733,3 +734,31 @@ def _np_empty(eng, a, kw, st, fr, k, node):
 def _num_astype(eng, recv, a, kw, st, fr, k, node):
     """x.astype(np.intNN) on a scalar: identity under assumption A1 (no wrap-around)."""
     return k(recv, st)
+
+
+@method("arr", "sum")
+def _arr_sum(eng, recv, a, kw, st, fr, k, node):
+    """x.sum() of a 1-D column/plain array: the ghost prefix-sum difference (reals, assumption A3)."""
+    if recv.field is None:
+        raise Unsupported("sum of structured array")
+    from .ops import psum_fn
+    arr = eng.heap_field(st.heap, recv.base, recv.field)
+    f = psum_fn(arr)
+    j = eng.S._fresh("ps")
+    sel = z3.Select(arr, j)
+    ax = z3.ForAll([j], f(j + 1) == f(j) + (z3.ToReal(sel) if z3.is_int(sel) else sel), patterns=[f(j + 1)])
+    eng.assumptions.add("A3 floating point sums are modelled over the reals (ghost prefix sums)")
+    return k(f(recv.lo + recv.n) - f(recv.lo), st.assume(ax))
+
+
+class _FreshLocals:
+    """Callers' view of a callee's locals mentioned in hint clauses: some (existentially chosen) integers."""
+
+    def __init__(self, eng):
+        self.__dict__["_eng"] = eng
+        self.__dict__["_vals"] = {}
+
+    def __getattr__(self, k):
+        if k not in self._vals:
+            self._vals[k] = self._eng.fresh("callee_local_" + k)
+        return self._vals[k]
